@@ -83,13 +83,14 @@ Rot(c) == c.rot \/ c.api = "fallback"
      ignore_trailing   : trailing octets are not a format error
      raise_on_truncation: a reply with TC raises Truncated
    Where the documentation leaves a choice (wrong source with ignore_errors but without
-   ignore_unexpected; a malformed but matching TC reply under ignore_errors) both kinds
-   are allowed. *)
+   ignore_unexpected; a malformed reply whose header carries TC, under ignore_errors AND
+   raise_on_truncation, that is not known to be a mismatch) both kinds are allowed. *)
 AllowedKinds(d, c) ==
     IF ~FromDest(d, c) THEN
         IF c.iu THEN {"skip"} ELSE IF c.ie THEN {"skip", "raise"} ELSE {"raise"}
     ELSE IF ~Parses(d, c) THEN
-        IF c.ie THEN (IF RespondsToQuery(d) /\ d.tc /\ Rot(c) THEN {"skip", "raise"} ELSE {"skip"})
+        IF c.ie THEN (IF d.wf # "shortHeader" /\ d.tc /\ Rot(c) /\ (Verify(c) => RespondsToQuery(d))
+                        THEN {"skip", "raise"} ELSE {"skip"})
         ELSE {"raise"}
     ELSE IF Verify(c) /\ ~RespondsToQuery(d) THEN
         IF c.ie THEN {"skip"} ELSE {"raise"}
@@ -100,7 +101,7 @@ AllowedKinds(d, c) ==
 MustBeTruncated(d, c) == FromDest(d, c) /\ Parses(d, c) /\ (Verify(c) => RespondsToQuery(d))
                          /\ d.tc /\ Rot(c)
 \* Truncated is only ever reported for a datagram whose header carries TC, when asked
-MayBeTruncated(d, c) == HeaderReadable(d) /\ d.tc /\ Rot(c)
+MayBeTruncated(d, c) == d.wf # "shortHeader" /\ d.tc /\ Rot(c)
 
 AllowedExc(d, c) == IF MustBeTruncated(d, c) THEN {"Truncated"}
                     ELSE IF MayBeTruncated(d, c) THEN {"Truncated", "other"}
@@ -159,9 +160,15 @@ ReturnOnlyGenuine ==
                       /\ (Verify(cfg) => Genuine(last, cfg))
                       /\ ~(last.tc /\ Rot(cfg))
 
+AtStart == consumed = 0 /\ nblocks = 0 /\ status = "open"   \* (statements about cfg only)
+\* the same, as a statement about every datagram of the universe (not only those reached)
+ReturnSound ==
+    AtStart => \A d \in Dgrams : ("ret" \in AllowedKinds(d, cfg)) =>
+        /\ FromDest(d, cfg) /\ Parses(d, cfg) /\ (Verify(cfg) => Genuine(d, cfg)) /\ ~(d.tc /\ Rot(cfg))
+        /\ AllowedKinds(d, cfg) = {"ret"}
+
 \* a genuine well-formed reply always ends the exchange (it is never skipped), and a
 \* genuine well-formed truncated one ends it with Truncated when asked
-AtStart == consumed = 0 /\ nblocks = 0 /\ status = "open"   \* (statements about cfg only)
 GenuineEnds ==
     AtStart => \A d \in Dgrams : (Genuine(d, cfg) /\ Parses(d, cfg)) =>
         /\ "skip" \notin AllowedKinds(d, cfg)
